@@ -95,6 +95,7 @@ def write_evidence(prop, tier, seed, level, results, cut, wall, extra, nviol):
             "wall_cap_cut_the_batch": bool(cut),
             "components": REAL_STUB,
             "determinism_selfcheck": extra.get("determinism"),
+            "prepared": extra.get("prepare"),
             "known_findings_matched": extra.get("known", []),
             "tree": repo_root(),
             "exhaustive": False,
@@ -176,6 +177,10 @@ def main(argv=None):
         print(f"HARNESS-ERROR seam bypassed: {e}")
         return 2
     level = PROPS[prop][1]
+    prep = None
+    if hasattr(mod, "prepare"):
+        # e.g. C16: reference outcomes computed in forked pristine children, a pure function of the seed
+        prep = mod.prepare(seed)
 
     if args.digests:
         a, b = args.digests.split("-")
@@ -263,6 +268,7 @@ def main(argv=None):
         "rule": getattr(mod, "RULES", {}).get(prop, ""),
         "assumptions": getattr(mod, "ASSUMPTIONS", {}).get(prop, []),
         "determinism": det,
+        "prepare": prep,
         "known": [k["what"] for _, (k, _) in sorted(matched.items())],
     }
     ev = write_evidence(prop, tier, seed, level, results, cut, wall, extra, nviol)
